@@ -14,6 +14,7 @@ with `<ast>` the neutral miniscript AST of Driver/AstParse.lean and `<k>` a key 
                                                    TrSpendInfo::from_tr, real tagged SHA-256); `<root> -> <outkey>`
                                                    is the elliptic-curve tweak done by rust-bitcoin (the only oracle);
                                                    answer: p2tr(outkey) if the roots agree, `ROOT:<model root>` otherwise
+  C desctype <desc>                                `Descriptor::desc_type()` and its `segwit_version()`: e.g. `ShWsh:0`, `Bare:-`
   C build <desc>                                   OK | ERR: would the constructor (`Descriptor::new_*` after `from_ast`
                                                    on every node) accept this shape over the `D key` table keys?  The model
                                                    is C12's entry-point model (Model/Validate.lean `accepts … .wrapper`,
@@ -296,6 +297,12 @@ def opsDesc (t : Tables) (kind op : String) (args : List String) : Option String
       match d.address P .bitcoin with
       | some (_, p) => Hash.toHexW p.scriptPubkey
       | none => "ERR")
+  | "C", "desctype", [d] => do
+    let d ← parseDesc d
+    let name := match d.descType with
+      | .bare => "Bare" | .sh => "Sh" | .pkh => "Pkh" | .wpkh => "Wpkh" | .wsh => "Wsh"
+      | .shWsh => "ShWsh" | .shWpkh => "ShWpkh" | .tr => "Tr"
+    pure (name ++ ":" ++ (match d.descType.segwitVersion with | some v => toString v | none => "-"))
   | "C", "build", [d] => do
     let d ← parseDesc d
     pure (if buildAccepts t d then "OK" else "ERR")
